@@ -97,8 +97,9 @@ func c08bound(ent *c08entry, n int) uint64 {
 	b := uint64(64*n + 4096)
 	if ent.framing {
 		// by design one maximal (already bounds-checked) frame or one allocator page per read; the
-		// framing entry points are called twice (two reader chunkings)
-		b += 2 * (c08maxFrame + 1024)
+		// framing entry points are called three times (two reader chunkings, and once with a stream
+		// that ends with a transport error instead of EOF)
+		b += 3 * (c08maxFrame + 1024)
 	}
 	return b
 }
@@ -217,7 +218,7 @@ func c08childMain(specPath string) {
 			if delta > bound {
 				res.Outcome(ent.name + " ALLOC")
 				res.Violate("C08", "c08-alloc:"+ent.name, fmt.Sprintf("%s allocates %d bytes (bound %d = 64 x len + 4 KiB%s) on %s; result: %s",
-					ent.name, delta, bound, map[bool]string{true: " + two maximal frames", false: ""}[ent.framing], what, outcome), replay(), nil)
+					ent.name, delta, bound, map[bool]string{true: " + three maximal frames", false: ""}[ent.framing], what, outcome), replay(), nil)
 				if delta > 1<<20 {
 					broken[ent.name] = true
 				}
@@ -589,7 +590,7 @@ func init() {
 		ID: "C08", Level: "model_checking",
 		Rule: "one case = (entry point, input): every decoding entry point of both codecs is given all byte strings of length <= 2, all strings of length <= 5 (quick) / 6 (thorough) over {00,01,04,7f,80,ff}, every truncation of every valid encoding of a corpus drawn from the C06 product (frames and stand-alone attribute / name-entry blobs; sliced at the level the entry point expects), the encodings with garbage appended, every length/count/flags field replaced by {0,1,n-1,n+1,2^31-1,2^32-1}, every type byte 0..255, and frames declared around the 256 KiB limit; derived inputs are de-duplicated per level, so all cases are distinct",
 		Assumptions: []string{
-			"allocation is the runtime.MemStats.TotalAlloc delta around the call on a single goroutine with GOMAXPROCS=1 (minimum of three runs when the bound is exceeded); bound 64 x len(input) + 4 KiB, plus two maximal frames for the framing entry points (they are called with two reader chunkings and allocate the declared, already bounds-checked frame or one allocator page)",
+			"allocation is the runtime.MemStats.TotalAlloc delta around the call on a single goroutine with GOMAXPROCS=1 (minimum of three runs when the bound is exceeded); bound 64 x len(input) + 4 KiB, plus three maximal frames for the framing entry points (they are called with two reader chunkings and once with a stream ending in a transport error, and allocate the declared, already bounds-checked frame or one allocator page)",
 			"every call runs in a child process under `ulimit -v 2000000`; an out-of-memory death is attributed to the case announced just before it and counts as an allocation violation",
 			"after an entry point has been reported for a >1 MiB allocation, inputs containing a 32-bit window >= 2^16 are skipped for that entry point (counted under 'skipped' outcomes)",
 			"a case that makes no progress for 60 s is reported as a hang (watchdog; never observed)",
